@@ -42,6 +42,14 @@ SEEDS = {
  "C13-m1": ("internal/ot/c13_m1_demo_test.go", "go test -vet=off -count=1 -run TestC13M1 ./internal/ot/"),
  "C13-m2": ("internal/ot/c13_m2_demo_test.go", "go test -vet=off -count=1 -run TestC13M2 ./internal/ot/"),
  "C18-m1": ("pkg/pool/demo_test.go", "go test -vet=off -count=1 -timeout 300s -run TestDemoParallelizeKeepsWorkers ./pkg/pool/"),
+ "C10-m3": ("pkg/zk/nth/demo_c10_test.go", "go test -vet=off -count=1 -run TestDemoC10NthResponseShiftedByN ./pkg/zk/nth/"),
+ "C19-m3": ("pkg/party/c19_demo_test.go", "go test -vet=off -count=1 -run TestC19 ./pkg/party/"),
+ "C03-m3": ("protocols/frost/c03_m3_demo_test.go", "go test -vet=off -count=1 -run TestC03M3 ./protocols/frost/"),
+ "C12-m3": ("pkg/paillier/demo_c12_test.go", "go test -vet=off -count=1 -run TestDemoC12 ./pkg/paillier/"),
+ "C14-m3": ("internal/bip32/c14_m3_demo_test.go", "go test -vet=off -count=1 -run TestC14M3 ./internal/bip32/"),
+ "C13-m3": ("internal/ot/demo_c13_m3_test.go", "go test -vet=off -count=1 -run TestDemoC13M3 ./internal/ot/"),
+ "C02-m3": ("protocols/doerner/demo_c02_m3_test.go", "go test -vet=off -count=1 -run TestC02M3 ./protocols/doerner/"),
+ "C08-m3": ("protocols/frost/c08_demo_test.go", "go test -vet=off -count=1 -run TestC08FrostRefreshSubset ./protocols/frost/"),
  "C18-m2": ("pkg/pool/demo_test.go", "go test -vet=off -count=1 -timeout 300s -run TestDemoSearchKeepsWorkers ./pkg/pool/"),
 }
 def sh(cmd, cwd, timeout=2400):
